@@ -111,12 +111,32 @@ def shapePairs (s : Schema) (vty : FTy) : Pairs → Bool
   | .cons _ v r => shapeE s vty v && shapePairs s vty r
 end
 
+-- the canonical default of a type, structurally (what `Default::default()` builds).
+mutual
+def isDefE (s : Schema) : FTy → EVal → Bool
+  | .scalar c, .s x => decide (x = c.default)
+  | .msg i, .msg fs => isDefSlots s (decls s i) fs
+  | _, _ => false
+def isDefSlot (s : Schema) : FieldDecl → Slot → Bool
+  | .single _ ty false, .req v => isDefE s ty v
+  | .single _ _ true, .none => true
+  | .rep _ _, .rep .nil => true
+  | .map _ _ _, .map .nil => true
+  | .oneof _, .none => true
+  | _, _ => false
+def isDefSlots (s : Schema) : List FieldDecl → Slots → Bool
+  | [], .nil => true
+  | d :: ds, .cons v r => isDefSlot s d v && isDefSlots s ds r
+  | _, _ => false
+end
+
 /-- a schema pilota-build can be given: field numbers in range and distinct per message,
 message references resolve, map keys are key types, and the struct defaults exist (no
 struct contains itself through non-optional fields). -/
 def WFSchema (s : Schema) : Bool :=
   s.all (fun ds => ds.all (FieldDecl.wfIn s.length) && nodup (allTags ds)) &&
-  (List.range s.length).all (fun i => shapeSlots s (decls s i) (defaultMsg s i))
+  ((List.range s.length).all (fun i => shapeSlots s (decls s i) (defaultMsg s i)) &&
+   (List.range s.length).all (fun i => isDefSlots s (decls s i) (defaultMsg s i)))
 
 /-! ### HasType -/
 
